@@ -96,7 +96,8 @@ def main(argv=None):
         except core.Violation as v:
             ctx.violation(v.sig, v.detail, v.case)
         except AssertionError as e:
-            errs.append(("finalize", f"vacuity guard failed: {e}\n{traceback.format_exc()}"))
+            vac = f"vacuity guard failed: {e}\n{traceback.format_exc()}"
+            errs.append(("finalize", vac))
         except Exception:
             errs.append(("finalize", traceback.format_exc()))
 
@@ -155,9 +156,11 @@ def main(argv=None):
     }
     os.makedirs(os.path.join(core.VERIF, "evidence"), exist_ok=True)
     evp = os.path.join(core.VERIF, "evidence", f"{pid}.json")
-    with open(evp + ".tmp", "w") as f:
-        json.dump(ev, f, indent=1, sort_keys=True, default=str)
-    os.replace(evp + ".tmp", evp)
+    if a.shard is None:      # a single-shard debugging run never overwrites the evidence of a full run
+        tmp = f"{evp}.{os.getpid()}.tmp"
+        with open(tmp, "w") as f:
+            json.dump(ev, f, indent=1, sort_keys=True, default=str)
+        os.replace(tmp, evp)
 
     print(f"[{pid}] tier={a.tier} seed={seed} shards={len(specs)} states={cov['states']} transitions={cov['transitions']} "
           f"executions={cov['evaluations']} traces={cov['traces_validated_against_impl']} outcomes={cov['distinct_outcomes']} "
@@ -169,10 +172,15 @@ def main(argv=None):
     for sig, v, path, k in new:
         print(f"VIOLATION property={pid} replay={path}")
         print(f"    sig={sig} cases={v['count']}\n    {v['detail'][:600]}")
+    if new:
+        # a confirmed (twice-replayed) violation is the verdict; a vacuity guard that fails only because the
+        # violating cases aborted before setting their coverage flags must not turn it into a harness error
+        errs = [(s, e) for s, e in errs if s != "finalize"]
     if errs:
         for s, e in errs:
             print(f"HARNESS-ERROR {pid} shard={s}\n{e}", file=sys.stderr)
-        return 2
+        if not new:
+            return 2
     return 1 if new else 0
 
 
